@@ -30,7 +30,8 @@ RULE = ("run cases: dense synthetic packings and fragments with side chains trun
         "dihedral x 5 random target angles on live objects. Non-trivial: run in which at least one input heavy atom "
         "moved or a torsion call was observed, or a direct torsion call; distinct = (residue, position, dihedral index) "
         "for torsion calls and (force field, options, seed) for runs"
-        ' Round-2 additions: long real stretches; the pKa route crossed with every stage switch on debump-stress inputs (--nodebump --noopt with propka must not move anything).')
+        ' Round-2 additions: long real stretches; the pKa route crossed with every stage switch on debump-stress inputs (--nodebump --noopt with propka must not move anything).'
+        ' Round-3/4 additions: terminal-patch alias names (OT1/OT2, HT1..) with --neutraln/--neutralc; unequal carboxyl C-O bonds; carbon obstacles (single ALA, CB at the site of a polar or terminal hydrogen) and PRO in the debump-stress pools.')
 ASSUMPTIONS = ["input coordinates are read by the harness' own column reader; atoms are matched by residue (generator "
                "truth) and documented alternate names",
                "tolerances: 5e-4 A for 'did not move', 2e-3 A bond lengths, 3e-3 A 1-3 distances (the file has 3 decimals "
